@@ -73,6 +73,24 @@ func c08Fact(tag string, i int) m.Pred { return m.P(fmt.Sprintf("f_%s_%d", tag, 
 func c08Check(tag string, i int) m.Check {
 	return m.Check{Queries: []m.Rule{{Head: m.Pred{Name: "query"}, Body: []m.Pred{m.P(fmt.Sprintf("g_%s_%d", tag, i), m.Str(fmt.Sprintf("t_%s_%d", tag, i)))}}}}
 }
+// c08ConcatPair: evaluating the rule concatenates two strings (the evaluator interns the result
+// somewhere: not in the token's table)
+func c08ConcatPair(tag string, i int) (m.Pred, m.Rule) {
+	x := m.Var(fmt.Sprintf("cv_%s_%d", tag, i))
+	f := m.P(fmt.Sprintf("cat_%s_%d", tag, i), m.Str(fmt.Sprintf("cs_%s_%d", tag, i)))
+	r := m.Rule{Head: m.P(fmt.Sprintf("cath_%s_%d", tag, i), x), Body: []m.Pred{m.P(f.Name, x)},
+		Exprs: []*m.Expr{m.Bin("==", m.Bin("+", m.V(x), m.V(m.Str(fmt.Sprintf("_sfx_%s_%d", tag, i)))), m.V(m.Str("never")))}}
+	return f, r
+}
+
+// c08RegexCheck holds for an authorizer that supplies its body fact: the string matches the pattern
+// written next to it, and no pattern of another action
+func c08RegexCheck(tag string, i int) m.Check {
+	val := fmt.Sprintf("val_%s_%d", tag, i)
+	return m.Check{Queries: []m.Rule{{Head: m.Pred{Name: "query"}, Body: []m.Pred{m.P(fmt.Sprintf("rx_%s_%d", tag, i), m.Str(val))},
+		Exprs: []*m.Expr{m.Bin("matches", m.V(m.Str(val)), m.V(m.Str("^"+val+"$")))}}}}
+}
+
 func c08Rule(tag string, i int) m.Rule {
 	x := m.Var(fmt.Sprintf("v_%s_%d", tag, i))
 	return m.Rule{Head: m.P(fmt.Sprintf("h_%s_%d", tag, i), x), Body: []m.Pred{m.P(fmt.Sprintf("b_%s_%d", tag, i), x)}}
@@ -183,6 +201,19 @@ func checkC08(c C08Case, rec *obs.Recorder) *obs.Violation {
 			if w, g := model[i].Postfix().ContentKey(), got[i].ContentKey(); w != g {
 				return obs.ViolK("content", "history [%s]: block %d of the new token (%s) decodes to %s, but its caller supplied %s", strings.Join(hist, "; "), i, how, g, w)
 			}
+		}
+		// what the panel must answer follows from the content alone: every check of the model holds
+		// exactly when the authorizer supplies its body fact (and its own pattern matches its own string)
+		nchecks := 0
+		for _, b := range model {
+			nchecks += len(b.Checks)
+		}
+		want0 := "allow"
+		if nchecks > 0 {
+			want0 = fmt.Sprintf("checks(%d)", nchecks)
+		}
+		if len(s.panel) == 2 && (s.panel[0] != want0 || s.panel[1] != "allow") {
+			return obs.ViolK("panel", "history [%s]: new token (%s) with %d checks: an authorizer that allows everything gives %s (expected %s); one that also supplies the facts the checks ask for gives %s (expected allow)", strings.Join(hist, "; "), how, nchecks, s.panel[0], want0, s.panel[1])
 		}
 		if s.str != s.reloadedStr {
 			return obs.ViolK("twin", "history [%s]: new token (%s): String() differs from the String() of the same token reloaded from its bytes:\n%s\nvs\n%s", strings.Join(hist, "; "), how, s.str, s.reloadedStr)
@@ -331,6 +362,18 @@ func checkC08(c C08Case, rec *obs.Recorder) *obs.Violation {
 					_ = bb.AddCheck(bridge.ToCheck(ch))
 					content.Checks = append(content.Checks, ch)
 				}
+				if op.Kind == 4 {
+					ch := c08RegexCheck(tag, 10+n)
+					_ = bb.AddCheck(bridge.ToCheck(ch))
+					content.Checks = append(content.Checks, ch)
+				}
+				if op.Kind == 3 {
+					cf, cr := c08ConcatPair(tag, 10+n)
+					_ = bb.AddFact(bridge.ToFact(cf))
+					_ = bb.AddRule(bridge.ToRule(cr))
+					content.Facts = append(content.Facts, cf)
+					content.Rules = append(content.Rules, cr)
+				}
 				hist = append(hist, fmt.Sprintf("%d:%s(t%d)->t%d", step, op.Op, i, len(toks)))
 				nt, err := toks[i].tok.Append(rng, bb.Build())
 				if err != nil {
@@ -370,6 +413,19 @@ func checkC08(c C08Case, rec *obs.Recorder) *obs.Violation {
 				case 1:
 					r := c08Rule(tag, k)
 					err = bd.bb.AddRule(bridge.ToRule(r))
+					bd.content.Rules = append(bd.content.Rules, r)
+				case 4:
+					// a check whose expression matches a string of its own against a pattern of its own
+					ch := c08RegexCheck(tag, k)
+					err = bd.bb.AddCheck(bridge.ToCheck(ch))
+					bd.content.Checks = append(bd.content.Checks, ch)
+				case 3:
+					// a fact and a rule that fires on it and builds a new string while it is evaluated
+					f, r := c08ConcatPair(tag, k)
+					if err = bd.bb.AddFact(bridge.ToFact(f)); err == nil {
+						err = bd.bb.AddRule(bridge.ToRule(r))
+					}
+					bd.content.Facts = append(bd.content.Facts, f)
 					bd.content.Rules = append(bd.content.Rules, r)
 				default:
 					ch := c08Check(tag, k)
@@ -583,7 +639,7 @@ func drawC08(t *rapid.T) C08Case {
 			Op:   rapid.SampledFrom(ops).Draw(t, "op"),
 			A:    rapid.IntRange(0, 11).Draw(t, "a"),
 			N:    rapid.IntRange(0, 2).Draw(t, "n"),
-			Kind: rapid.IntRange(0, 2).Draw(t, "kind"),
+			Kind: rapid.IntRange(0, 4).Draw(t, "kind"),
 		})
 	}
 	return c
@@ -592,7 +648,7 @@ func drawC08(t *rapid.T) C08Case {
 func TestC08(t *testing.T) {
 	rec := obs.New("C08")
 	defer rec.Flush(true)
-	rec.SetExtra("rule", "rapid operation histories (4-28 steps) over a growing family of tokens under one root key: build, createBlock(token), add fact/rule/check to a builder (every action uses symbols no other action uses), buildBlock (builders stay usable: more adds and further Builds follow), rootAdd (adding to the root Builder after it has built tokens) and rebuild (Build on it again), append(block to the token whose CreateBlock made it; the same block may be appended twice), seal, reload from bytes (every other time through one long-lived Unmarshaler value), GetBlockID (fresh fact; known predicate name or default symbol with a fresh string), authorize with fresh content, print, and the composites grow (create+add+build+append on the deepest token) and fork (the same twice on one parent). Parents are drawn with replacement, so several builders, blocks and tokens derived from one parent are the norm. Model: for every token the blocks its own callers supplied, plus a snapshot at birth. Invariant after every step for every live token: String, Code, Serialize, RevocationIds unchanged; every third step also String of the token reloaded from its bytes and the outcomes of two panel authorizers (allow-all; allow-all plus the facts the token's own checks ask for). At birth: independent decoding of Serialize equals the model, String equals the reloaded twin's; a token or block from a second Build may hold everything added so far or what was added since the previous Build (both readings are accepted), nothing else. The known finding blockbuilder-reuse (KNOWN_FINDINGS.txt) is stepped around and counted (known_blockbuilder_reuse_stepped_around): blocks already built are still checked. Non-trivial = a history in which some parent has >= 2 derivations and is observed afterwards; distinct by history.")
+	rec.SetExtra("rule", "rapid operation histories (4-28 steps) over a growing family of tokens under one root key: build, createBlock(token), add fact / rule / check / fact-plus-rule that concatenates strings when it fires / check that matches its own string against its own pattern to a builder (every action uses symbols no other action uses), buildBlock (builders stay usable: more adds and further Builds follow), rootAdd (adding to the root Builder after it has built tokens) and rebuild (Build on it again), append(block to the token whose CreateBlock made it; the same block may be appended twice), seal, reload from bytes (every other time through one long-lived Unmarshaler value), GetBlockID (fresh fact; known predicate name or default symbol with a fresh string), authorize with fresh content, print, and the composites grow (create+add+build+append on the deepest token) and fork (the same twice on one parent). Parents are drawn with replacement, so several builders, blocks and tokens derived from one parent are the norm. Model: for every token the blocks its own callers supplied, plus a snapshot at birth. Invariant after every step for every live token: String, Code, Serialize, RevocationIds unchanged; every third step also String of the token reloaded from its bytes and the outcomes of two panel authorizers (allow-all; allow-all plus the facts the token's own checks ask for). At birth: independent decoding of Serialize equals the model, String equals the reloaded twin's, and the two panel authorizers answer what the content implies (checks(n) for n checks without their facts, allow with them); a token or block from a second Build may hold everything added so far or what was added since the previous Build (both readings are accepted), nothing else. The known finding blockbuilder-reuse (KNOWN_FINDINGS.txt) is stepped around and counted (known_blockbuilder_reuse_stepped_around): blocks already built are still checked. Non-trivial = a history in which some parent has >= 2 derivations and is observed afterwards; distinct by history.")
 	rec.SetExtra("assumptions", []string{"a block is appended only to the token whose CreateBlock made it; Build is called once per builder"})
 	harness.RunWith(t, harness.Spec[C08Case]{ID: "C08", Draw: drawC08, Check: checkC08}, rec)
 }
